@@ -97,7 +97,7 @@ theorem J_complete (cfg : Cfg) (cur : Req) (s : Srv) (r : Resp)
   · by_cases hm : blockSize z < s.rep.length
     · -- more blocks follow
       simp only [hm, decide_true] at hb
-      rw [completeBlock2_some hb]
+      rw [completeBlock2_some hb, if_neg (by simp [BlockOpt.start])]
       have hlen : r.payload.length = blockSize z := by
         rw [hp, List.length_take]; omega
       have hsz : BlockOpt.size ⟨0, true, z⟩ = blockSize z := BlockOpt.size_eq (b := ⟨0, true, z⟩) hz
@@ -114,7 +114,7 @@ theorem J_complete (cfg : Cfg) (cur : Req) (s : Srv) (r : Resp)
       simp only [mu]
       omega
     · simp only [hm, decide_false] at hb
-      rw [completeBlock2_some hb]
+      rw [completeBlock2_some hb, if_neg (by simp [BlockOpt.start])]
       simp only [Bool.not_false, ↓reduceIte]
       refine ⟨⟨rfl, rfl, rfl, hrec, ?_⟩, Nat.zero_le _⟩
       simp only [bodyOf, hcode, hetag, hp]
@@ -299,6 +299,7 @@ theorem J.exchange {cfg : Cfg} {rep : Bytes} {etag : Option Bytes} {code : Nat} 
     have hnew : a.payload ++ (sliceResp s k z none).payload = s.rep.take (k + blockSize z) := by
       simp only [sliceResp]
       rw [hapay, take_append_slice]
+    rw [if_neg (by simp [sliceResp, hacode])]
     simp only [hvalid, Bool.not_true, Bool.false_eq_true, ↓reduceIte, hstart, halen, ne_eq,
       not_true_eq_false]
     have het : (sliceResp s k z none).etag = a.etag := by simp [sliceResp, haetag]
